@@ -118,7 +118,7 @@ class C01(L1Prop):
 
 
 # ------------------------------------------------------------------ C02
-def cas_check(i, trace, fails):
+def cas_check(i, trace, fails, http=False):
     """AddVersion at index i must be a compare-and-append relative to the dumps around it."""
     o, ri, rm = trace[i]
     op = Op(o)
@@ -137,9 +137,11 @@ def cas_check(i, trace, fails):
         fails.append(f"op {i}: dump failed around add_version"); return True
     kind = resp_kind(ri)
     if b.absent:
-        if kind != "noclient":
-            fails.append(f"op {i}: add_version for an absent client answered {ri}")
-        expect_accept = None
+        # the library reports NoSuchClient; the HTTP handler creates the client and accepts
+        want = "added" if http else "noclient"
+        if kind != want:
+            fails.append(f"op {i}: add_version for a client the server has never seen answered {ri}")
+        expect_accept = True if http else None
     else:
         expect_accept = (b.latest == 0) or (op.p == b.latest)
         if expect_accept and kind != "added":
@@ -187,6 +189,29 @@ def cas_check(i, trace, fails):
     return True
 
 
+def http_as_lib(trace):
+    """rewrite well-formed HTTP add-version requests and their responses into library form so
+    that the same compare-and-append oracle reads them"""
+    from .props_http import HOp, HResp
+    out = []
+    for (o, ri, rm) in trace:
+        if o.startswith("http "):
+            h, r = HOp(o), HResp(ri)
+            if h.route == "av" and h.valid():
+                if r.status == 200 and r.xv.isdigit():
+                    rr = f"added {r.xv} {'none' if r.xs == '-' else r.xs}"
+                elif r.status == 409 and r.xp.isdigit():
+                    rr = f"conflict {r.xp}"
+                elif r.status == 404:
+                    rr = "noclient"
+                else:
+                    rr = f"error-{r.status}"
+                out.append((f"av {h.cid} {h.seg} {h.fresh} {h.now} {h.body()}", rr, rr))
+            continue
+        out.append((o, ri, rm))
+    return out
+
+
 class C02(L1Prop):
     id = "C02"
     overlap = True
@@ -210,6 +235,31 @@ class C02(L1Prop):
                     ops.append(f"ensure {c}")
                 ops += ["dumpall", f"av {c} {cls.format(c=c, o=o)} {payload(rr)}", "dumpall"]
                 out.append(Case(f"c02-{k}-{ci}", ops, {"target": len(ops) - 2}))
+        # the HTTP entry point: every class of parent, plus the retransmission of an earlier accepted
+        # request (same stale parent, byte-identical payload) which must be a conflict like any other
+        nh = sizes(tier, 12, 150)
+        for k in range(nh):
+            r2 = random.Random(rng.getrandbits(64))
+            c, o = 1, 2
+            n = r2.randint(1, 6)
+            pre = []
+            for cc in (1, 2):
+                for i in range(n if cc == 1 else 2):
+                    par = ("nil" if r2.random() < 0.5 else "fresh") if i == 0 else f"latest:{cc}"
+                    pre.append(f"http POST av hyph={par} hyph={cc} history b:{10 + i},{cc}")
+                if r2.random() < 0.5:
+                    pre.append(f"http POST as hyph=latest:{cc} hyph={cc} snapshot b:9")
+            classes = [x.format(c=c, o=o) for x in PARENT_CLASSES if not x.startswith("client")]
+            for ci, cls in enumerate(classes):
+                ops = pre + ["dumpall", f"http POST av hyph={cls} hyph={c} history b:77,{ci}", "dumpall"]
+                out.append(Case(f"c02-h{k}-{ci}", ops, {"http": True}, mode="http"))
+            # retransmissions of the i-th accepted request of client 1
+            for i in range(n):
+                par = f"ver:1:{i - 1}" if i > 0 else None
+                if par is None:
+                    continue
+                ops = pre + ["dumpall", f"http POST av hyph={par} hyph=1 history b:{10 + i},1", "dumpall"]
+                out.append(Case(f"c02-h{k}-rt{i}", ops, {"http": True}, mode="http"))
         return out
     def relevant(self, i, trace):
         o, ri, rm = trace[i]
@@ -226,9 +276,12 @@ class C02(L1Prop):
         return False
     def oracle(self, case, trace, backend):
         fails = []
+        http = bool(case.meta.get("http"))
+        if http:
+            trace = http_as_lib(trace)
         for i, (o, ri, rm) in enumerate(trace):
             if o.startswith("av "):
-                cas_check(i, trace, fails)
+                cas_check(i, trace, fails, http)
         return fails
     def nontrivial(self, case, trace):
         for i, (o, ri, rm) in enumerate(trace):
@@ -449,6 +502,26 @@ class C12(L1Prop):
 
 
 # ------------------------------------------------------------------ C09
+def foreign_chain_cases(prefix, rng, n, tail):
+    """client 2 starts its chain on a version that belongs to client 1 and then quotes client 1's
+    older versions (snapshots, lookups): nothing of client 1 may leak into or affect client 2"""
+    out = []
+    for k in range(n):
+        la = rng.randint(3, 7)
+        ops = ["ensure 1"] + [f"av 1 {'nil' if i == 0 else 'latest:1'} b:1,{i}" for i in range(la)]
+        j = rng.randint(1, la - 1)
+        ops += ["ensure 2", f"av 2 ver:1:{j} b:2,0"]
+        for _ in range(rng.randint(0, 2)):
+            ops.append("av 2 latest:2 b:2,9")
+        # older versions of client 1 first (an upload for the base itself is the corner C10 leaves open)
+        for i in list(range(j - 1, -1, -1)) + [j]:
+            ops += [f"as 2 ver:1:{i} b:7,{i}", "gs 2", f"gcv 2 ver:1:{i}"]
+        ops += [f"as 1 ver:2:0 b:8", "gs 1", "gcv 1 ver:2:0", "av 1 latest:1 b:1,99", "av 2 latest:2 b:2,99"]
+        ops += tail
+        out.append(Case(f"{prefix}-foreign-{k}", ops, {"nclients": 2}))
+    return out
+
+
 def renumber(pairs):
     """renumber every id in a sequence of (op, response) lines by first appearance (nil stays 0);
     clock readings are dropped"""
@@ -504,6 +577,7 @@ class C09(L1Prop):
             nc = rng.choice([2, 3, 4])
             ops, g = rand_prefix(rng, rng.randint(10, length), nc, True, False, True)
             out.append(Case(f"c09-{k}", ops, {"nclients": nc}))
+        out += foreign_chain_cases("c09", rng, sizes(tier, 10, 100), [])
         return out
     def relevant(self, i, trace):
         # a divergence on a request that quotes an id stored for another client
@@ -749,6 +823,7 @@ class C11(L1Prop):
             ops, g = rand_prefix(rng, rng.randint(8, length), nc, k % 4 == 0, True, False, obs)
             ops += [f"swalk {c}" for c in range(1, nc + 1)]
             out.append(Case(f"c11-{k}", ops))
+        out += foreign_chain_cases("c11", rng, sizes(tier, 10, 100), ["swalk 1", "swalk 2"])
         return out
     def relevant(self, i, trace):
         o, ri, rm = trace[i]
